@@ -177,9 +177,13 @@ def run(prog, chk):
     else:
         chk.bad("C14.T2", f, "resolver-not-detached", "%s:%s" % (f.file, f.line), "remove(EstablisherImpl&) must clear resolver->establisher before freeing the establisher (the finished resolver calls back into it)")
     f = sfn(prog, P + "deleteClient")
-    a = [c for c in q.calls(f) if re.search(r"_sockets\.remove\(client\)", f.r(c))]
-    a2 = [c for c in q.calls(f) if re.search(r"_closingClients\.remove\(&client\)", f.r(c))]
-    b = [c for c in q.calls(f) if re.search(r"_clients\.remove\(client\)", f.r(c))]
+    # the client is the function's parameter, by reference or by pointer
+    pn_ = re.escape(f.params[0]["n"]) if f.params else "client"
+    obj_ = r"\*?%s" % pn_           # the object:  client | *client
+    adr_ = r"&?%s" % pn_             # its address: &client | client
+    a = [c for c in q.calls(f) if re.search(r"_sockets\.remove\(%s\)" % obj_, q.no_casts(f.r(c)))]
+    a2 = [c for c in q.calls(f) if re.search(r"_closingClients\.remove\(%s\)" % adr_, q.no_casts(f.r(c)))]
+    b = [c for c in q.calls(f) if re.search(r"_clients\.remove\(%s\)" % obj_, q.no_casts(f.r(c)))]
     if a and a2 and b and all(q.precedes_always(f, a, y) and q.precedes_always(f, a2, y) for y in b):
         chk.ok("C14.T2", f, "deleteClient: poll set and closing list before the pool", "%s:%s" % (f.file, f.line), "ORD", evals=2)
     else:
@@ -235,6 +239,8 @@ def run(prog, chk):
     casts = 0
     for i, n in enumerate(run_.nodes):
         if n["k"] == "CStyleCastExpr" and n["c"] and q.no_casts(run_.r(n["c"][0])) == "pollEvent.socket":
+            if run_.node_pos(i) is None:
+                continue      # a copy that is not evaluated (argument expression of an inlined helper, substituted at its uses)
             ty = n["t"].replace("Server::Private::", "").rstrip(" *")
             atoms = fin.dominating_atoms(run_, run_.node_pos(i))
             flags = [m.group(1) for a in atoms if a[0] != "case" and a[1] for m in [re.search(r"pollEvent\.flags & Socket::Poll::(\w+)", fin.key(run_, a[0]))] if m]
